@@ -249,6 +249,8 @@ def shape_of(v):
         return ListOf(v.shape, tuple_=True)
     if v is None or isinstance(v, (str, bytes)):
         return Const(v)
+    if hasattr(v, "py_shape"):
+        return v.py_shape()  # a modelled value that knows its own shape (pyvc.fmap.SFMap)
     raise Unsupported(f"no shape for {v!r}")
 
 
